@@ -528,8 +528,8 @@ impl ZchState {
                     self.zchd.zchd_prior_activation_output_count += 1;
                     self.zchd.zchd_characters_to_delete_on_next_activation += 1;
 
-                    kb.press_key(OsCode::KEY_SPACE)?;
-                    kb.release_key(OsCode::KEY_SPACE)?;
+                    // The space key may be one of the chord's keys and still be held.
+                    type_osc(OsCode::KEY_SPACE, kb, &self.zchd)?;
                 }
 
                 if !self.zchd.zchd_is_caps_word_active {
